@@ -21,6 +21,9 @@ PID = "C03"
 def float_jacobians(p, cse, e):
     with quiet():
         pn, sn = pyh.noise_vals_from_env(p, e)
+        # Jacobians do not depend on the noise values: a candidate may carry any number there, the filter needs a valid one
+        pn = {c: (v if v > 0 else p.process_noise[c]) for c, v in pn.items()}
+        sn = {k_: {r: (v if v > 0 else p.sensor_noise[k_][r]) for r, v in rs.items()} for k_, rs in sn.items()}
         calmap = pyh.float_calibration_map(p, e)
         ekf = pyh.build_ekf_float(p, e, cse=cse, pn=pn, sn=sn, calmap=calmap)
         for k_ in list(calmap):
@@ -197,8 +200,8 @@ def task(p, cse, tier, seed):
 
 def programs_for(tier, seed):
     if tier == "quick":
-        return [CP.P1(), CP.P3(), CP.P8(), CP.P10(), CP.P12(), CP.P14(), CP.P17(), CP.P19(), CP.P20(), CP.P21()]
-    ps = CP.all_fixed() + [CP.P21()] + CP.presence_variants(CP.P3())[1:] + CP.presence_variants(CP.P10())[1:]
+        return [CP.P1(), CP.P3(), CP.P8(), CP.P10(), CP.P12(), CP.P14(), CP.P17(), CP.P19(), CP.P20(), CP.P21(), CP.P22()]
+    ps = CP.all_fixed() + [CP.P21(), CP.P22()] + CP.presence_variants(CP.P3())[1:] + CP.presence_variants(CP.P10())[1:]
     ps += [CP.random_program(seed, i) for i in range(10)]
     return ps
 
